@@ -118,6 +118,11 @@ def cases(tier, seed):
         for row in rows:
             yield _finish(row, seed, i)
             i += 1
+    # scans cut into blocks of unequal size (5 x 5 positions, max_batch 6 / 9 -> blocks of 3 and 2 along an axis)
+    for k, (mb, api, det) in enumerate([(6, "scan", "annular"), (9, "builder", "annular"), (9, "scan", "two"), (6, "builder", "waves")]):
+        row = dict(builder="probe", potential=["atoms", "fp_nomean"][k % 2], exit_planes="none", detectors=det, scan="grid5",
+                   max_batch=mb, scheduler="synchronous", api=api, reuse="fresh", grid=["16x16", "15x18"][k % 2], post="ctf")
+        yield _finish(row, seed, 20_000 + k)
     # invalid pipelines: both modes must fail
     r = rng_for(seed, "c01-bad")
     pots = ["array", "fp_nomean", "atoms", "crystal", "ens_mean"]
@@ -291,6 +296,8 @@ def _make_scan(c, extent):
         return abtem.LineScan(start=(0.1 * ex[0], 0.2 * ex[1]), end=(0.9 * ex[0], 0.7 * ex[1]), gpts=3)
     if s == "grid":
         return abtem.GridScan(start=(0, 0), end=(0.75 * ex[0], 0.5 * ex[1]), gpts=(3, 2))
+    if s == "grid5":
+        return abtem.GridScan(start=(0, 0), end=(0.8 * ex[0], 0.9 * ex[1]), gpts=(5, 5))
     raise ValueError(s)
 
 
@@ -501,7 +508,7 @@ def _compare(stage, ref, got, what="lazy vs eager", rtol=1e-5,
 
 
 def _other_batch(mb):
-    return {1: "auto", 2: 1, "auto": 1}[mb]
+    return {1: "auto", 2: 1, "auto": 1}.get(mb, "auto")
 
 
 def run_case(case):
